@@ -659,6 +659,11 @@ func report(cr *checkRun, seed int, start time.Time) int {
 		fmt.Println("BROKEN-CHECK claimed obligations undischarged without a violation record")
 		exit = 2
 	}
+	if violations > 0 {
+		// a failing obligation is reported as what it is even when, on the same tree, other obligations could not be
+		// generated (their BROKEN-CHECK lines stay in the output): exit 1 with the VIOLATION lines above
+		exit = 1
+	}
 	return exit
 }
 
